@@ -501,3 +501,586 @@ theorem recv_keeps {s : St} {st : Stanza} {e : Entry} (hn : (ids s.tbl).Nodup) (
           · exact Or.inl (mem_erase.mpr ⟨he, hid⟩)
 
 end Qx.C07
+
+namespace Qx.C07
+
+/-- `dead → table empty` (the destructor cancels everything) -/
+def DeadEmpty (s : St) : Prop := s.dead = true → s.tbl = []
+
+@[simp] theorem cancelAll_dead (s : St) : (cancelAll s).1.dead = s.dead := rfl
+@[simp] theorem cancelAll_tbl (s : St) : (cancelAll s).1.tbl = [] := rfl
+
+theorem sendRaw_dead (s : St) (id : Id) (to : String) : (sendRaw s id to).1.dead = s.dead := by
+  unfold sendRaw
+  simp only
+  split
+  · rfl
+  · split
+    · rfl
+    · split
+      · rfl
+      · split
+        · rfl
+        · simp
+
+theorem recv_dead (s : St) (st : Stanza) : (recv s st).1.dead = s.dead := by
+  unfold recv
+  split
+  · rfl
+  · split
+    · rfl
+    · split
+      · rfl
+      · split <;> rfl
+
+theorem step_deadEmpty (s : St) (op : Op) (h : DeadEmpty s) : DeadEmpty (step s op).1 := by
+  unfold step
+  split
+  · exact h
+  · rename_i hd
+    have hd' : s.dead = false := by simpa using hd
+    intro hdead
+    cases op with
+    | send id to => simp only [send] at hdead; rw [sendRaw_dead] at hdead; simp [hd'] at hdead
+    | sendRaw id to => simp only at hdead; rw [sendRaw_dead] at hdead; simp [hd'] at hdead
+    | sendFails id => simp [hd'] at hdead
+    | failAll => simp [hd'] at hdead
+    | ackAll => simp only at hdead; split at hdead <;> simp [hd'] at hdead
+    | enableSm => simp [hd'] at hdead
+    | recv st =>
+      simp only at hdead
+      split at hdead
+      · unfold streamError at hdead; split at hdead <;> simp [hd'] at hdead
+      · rw [recv_dead] at hdead; simp [hd'] at hdead
+    | sessionOpened r => simp only at hdead; split at hdead <;> simp [hd'] at hdead
+    | sessionClosed c => simp only at hdead; split at hdead <;> simp [hd'] at hdead
+    | destroy => rfl
+
+theorem run_deadEmpty (ops : List Op) : ∀ (s : St), DeadEmpty s → DeadEmpty (run s ops).1 := by
+  induction ops with
+  | nil => intro s h; exact h
+  | cons op rest ih => intro s h; simp only [run]; exact ih _ (step_deadEmpty s op h)
+
+/-- every step keeps a pending entry or completes it -/
+theorem step_keeps {s : St} {op : Op} {e : Entry} (hn : (ids s.tbl).Nodup) (he : e ∈ s.tbl) :
+    e ∈ (step s op).1.tbl ∨ e.req ∈ reqs (step s op).2 := by
+  unfold step
+  split
+  · exact Or.inl he
+  · cases op with
+    | send id to => exact Or.inl (sendRaw_keeps (s := { s with fresh := _ }) he)
+    | sendRaw id to => exact Or.inl (sendRaw_keeps he)
+    | sendFails id =>
+      rcases finish_keeps (id := id) (how := .sendError) hn he with h | h
+      · exact Or.inl h.1
+      · exact Or.inr h.1
+    | failAll => exact failList_keeps _ hn he
+    | ackAll => simp only; split <;> exact Or.inl he
+    | enableSm => exact Or.inl he
+    | recv st =>
+      simp only
+      split
+      · unfold streamError
+        split
+        · exact Or.inr (cancelAll_completes (s := { s with sm := false, sock := false }) he)
+        · exact Or.inl he
+      · exact recv_keeps hn he
+    | sessionOpened r =>
+      simp only
+      split
+      · exact Or.inl he
+      · exact Or.inr (cancelAll_completes he)
+    | sessionClosed c =>
+      simp only
+      split
+      · exact Or.inl he
+      · exact Or.inr (cancelAll_completes (s := { s with sm := false }) he)
+    | destroy =>
+      simp only [reqs_append, List.mem_append]
+      rcases failList_keeps s.unacked hn he with h | h
+      · exact Or.inr (Or.inr (cancelAll_completes (s := { (failList s s.unacked).1 with unacked := [] }) h))
+      · exact Or.inr (Or.inl h)
+
+/-- a trigger completes the pending entry in that very step -/
+theorem step_trigger {s : St} {op : Op} {e : Entry} (hn : (ids s.tbl).Nodup) (hd : s.dead = false)
+    (he : e ∈ s.tbl) (ht : Trigger e op) : e.req ∈ reqs (step s op).2 := by
+  unfold step
+  simp only [hd, Bool.false_eq_true, if_false]
+  cases op with
+  | send id to => cases ht
+  | sendRaw id to => cases ht
+  | sendFails id =>
+    simp only [Trigger] at ht
+    rcases finish_keeps (id := id) (how := .sendError) hn he with h | h
+    · exact absurd ht.symm h.2
+    · exact h.1
+  | failAll => cases ht
+  | ackAll => cases ht
+  | enableSm => cases ht
+  | recv st =>
+    simp only [Trigger, Stanza.answers] at ht
+    obtain ⟨hk, hty, hid, hfrm⟩ := ht
+    have hnot : ¬ (st.kind = .iq ∧ st.ty = .other) := by
+      intro h; rcases hty with h1 | h1 <;> simp [h1] at h
+    simp only [hnot, if_false]
+    have hl := lookup_of_mem hn he
+    unfold recv
+    have h1 : ¬ st.kind ≠ .iq := by simp [hk]
+    have h2 : ¬ (st.ty ≠ .result ∧ st.ty ≠ .error) := by
+      rcases hty with h | h <;> simp [h]
+    have h3 : ¬ (st.frm ≠ "" ∧ st.frm ≠ e.to) := by
+      rcases hfrm with h | h <;> simp [h]
+    simp [h1, h2, hid, hl, h3]
+  | sessionOpened r =>
+    simp only [Trigger] at ht
+    subst ht
+    exact cancelAll_completes he
+  | sessionClosed c =>
+    simp only [Trigger] at ht
+    subst ht
+    exact cancelAll_completes (s := { s with sm := false }) he
+  | destroy =>
+    simp only [reqs_append, List.mem_append]
+    rcases failList_keeps s.unacked hn he with h | h
+    · exact Or.inr (cancelAll_completes (s := { (failList s s.unacked).1 with unacked := [] }) h)
+    · exact Or.inl h
+
+theorem eventually_aux (e : Entry) (ops : List Op) : ∀ (s : St) (log : List Done),
+    Inv s.tbl s.nreq log → DeadEmpty s → e ∈ s.tbl → (∃ op ∈ ops, Trigger e op) →
+    e.req ∈ reqs (run s ops).2 := by
+  induction ops with
+  | nil => intro s log _ _ _ ht; obtain ⟨op, hop, _⟩ := ht; cases hop
+  | cons op rest ih =>
+    intro s log hinv hde he ht
+    have hdead : s.dead = false := by
+      cases hd : s.dead with
+      | false => rfl
+      | true => have := hde hd; rw [this] at he; cases he
+    simp only [run, reqs_append, List.mem_append]
+    by_cases hop : Trigger e op
+    · exact Or.inl (step_trigger hinv.nodup hdead he hop)
+    · rcases step_keeps (op := op) hinv.nodup he with h | h
+      · right
+        obtain ⟨op', hmem, htr⟩ := ht
+        rcases List.mem_cons.mp hmem with h1 | h1
+        · subst h1; exact absurd htr hop
+        · exact ih _ _ (step_inv s op hinv) (step_deadEmpty s op hde) h ⟨op', h1, htr⟩
+      · exact Or.inl h
+
+/-- recorded addressees are never empty -/
+def ToNonempty (t : List Entry) : Prop := ∀ e ∈ t, e.to ≠ ""
+
+theorem finish_sub {s : St} {id : Id} {how : How} {e : Entry} (he : e ∈ (finish s id how).1.tbl) : e ∈ s.tbl := by
+  unfold finish at he
+  split at he
+  · exact (mem_erase.mp he).1
+  · exact he
+
+theorem failList_sub (l : List Id) : ∀ {s : St} {e : Entry}, e ∈ (failList s l).1.tbl → e ∈ s.tbl := by
+  induction l with
+  | nil => intro s e he; exact he
+  | cons id rest ih => intro s e he; simp only [failList] at he; exact finish_sub (ih he)
+
+theorem recv_sub {s : St} {st : Stanza} {e : Entry} (he : e ∈ (recv s st).1.tbl) : e ∈ s.tbl := by
+  unfold recv at he
+  split at he
+  · exact he
+  · split at he
+    · exact he
+    · split at he
+      · exact he
+      · split at he
+        · exact he
+        · exact (mem_erase.mp he).1
+
+/-- an entry of the table after `sendRaw` is an old one or the one just registered -/
+theorem sendRaw_new {s : St} {id : Id} {to : String} {e : Entry} (he : e ∈ (sendRaw s id to).1.tbl) :
+    e ∈ s.tbl ∨ (e = ⟨id, to, s.nreq⟩ ∧ to ≠ "" ∧ id ≠ .named "") := by
+  unfold sendRaw at he
+  simp only at he
+  split at he
+  · exact Or.inl he
+  · rename_i hid
+    split at he
+    · exact Or.inl he
+    · rename_i hto
+      have hid' : id ≠ .named "" := by
+        intro h; exact hid (Or.inl h)
+      have key : ∀ e, e ∈ s.tbl ++ [Entry.mk id to s.nreq] → e ∈ s.tbl ∨ (e = ⟨id, to, s.nreq⟩ ∧ to ≠ "" ∧ id ≠ .named "") := by
+        intro e he
+        rcases List.mem_append.mp he with h | h
+        · exact Or.inl h
+        · simp only [List.mem_singleton] at h; exact Or.inr ⟨h, hto, hid'⟩
+      split at he
+      · exact key e he
+      · split at he
+        · exact key e he
+        · exact key e (finish_sub he)
+
+theorem step_new {s : St} {op : Op} {e : Entry} (he : e ∈ (step s op).1.tbl) :
+    e ∈ s.tbl ∨ (e.req = s.nreq ∧ e.to ≠ "" ∧ e.id ≠ .named "" ∧
+      ((∃ id to, op = .send id to ∧ e.to = (if to = "" then s.own else to)) ∨
+       (∃ to, op = .sendRaw e.id to ∧ e.to = to))) := by
+  unfold step at he
+  split at he
+  · exact Or.inl he
+  · cases op with
+    | send id to =>
+      simp only [send] at he
+      rcases sendRaw_new he with h | ⟨h1, h2, h3⟩
+      · exact Or.inl h
+      · right
+        subst h1
+        exact ⟨rfl, h2, h3, Or.inl ⟨id, to, rfl, rfl⟩⟩
+    | sendRaw id to =>
+      rcases sendRaw_new he with h | ⟨h1, h2, h3⟩
+      · exact Or.inl h
+      · right
+        subst h1
+        exact ⟨rfl, h2, h3, Or.inr ⟨to, rfl, rfl⟩⟩
+    | sendFails id => exact Or.inl (finish_sub he)
+    | failAll => exact Or.inl (failList_sub _ he)
+    | ackAll => simp only at he; split at he <;> exact Or.inl he
+    | enableSm => exact Or.inl he
+    | recv st =>
+      simp only at he
+      split at he
+      · unfold streamError at he
+        split at he
+        · cases he
+        · exact Or.inl he
+      · exact Or.inl (recv_sub he)
+    | sessionOpened r =>
+      simp only at he
+      split at he
+      · exact Or.inl he
+      · cases he
+    | sessionClosed c =>
+      simp only at he
+      split at he
+      · exact Or.inl he
+      · cases he
+    | destroy => cases he
+
+theorem run_toNonempty (ops : List Op) : ∀ (s : St), ToNonempty s.tbl → ToNonempty (run s ops).1.tbl := by
+  induction ops with
+  | nil => intro s h; exact h
+  | cons op rest ih =>
+    intro s h
+    simp only [run]
+    apply ih
+    intro e he
+    rcases step_new he with h1 | h1
+    · exact h e h1
+    · exact h1.2.1
+
+end Qx.C07
+
+namespace Qx.C07.Mam
+
+theorem finishes_append (a b : List Ev) : finishes (a ++ b) = finishes a + finishes b := by
+  simp [finishes, List.filter_append]
+
+@[simp] theorem finishes_nil : finishes [] = 0 := rfl
+
+theorem removeIdx_sublist (w : List Nat) (i : Nat) : List.Sublist (removeIdx w i) w := by
+  unfold removeIdx; exact List.filter_sublist
+
+theorem removeIdx_length {w : List Nat} {i : Nat} (hn : w.Nodup) (hi : i ∈ w) :
+    (removeIdx w i).length + 1 = w.length := by
+  induction w with
+  | nil => cases hi
+  | cons x xs ih =>
+    simp only [List.nodup_cons] at hn
+    by_cases hx : x = i
+    · subst hx
+      have h0 : removeIdx xs x = xs := by
+        unfold removeIdx
+        apply List.filter_eq_self.mpr
+        intro a ha
+        have : a ≠ x := by intro h; subst h; exact hn.1 ha
+        simpa using this
+      have h1 : removeIdx (x :: xs) x = xs := by
+        have e1 : removeIdx (x :: xs) x = removeIdx xs x := by simp [removeIdx]
+        rw [e1, h0]
+      rw [h1]; simp
+    · have hi' : i ∈ xs := by
+        rcases List.mem_cons.mp hi with h | h
+        · exact absurd h.symm hx
+        · exact h
+      have h1 : removeIdx (x :: xs) i = x :: removeIdx xs i := by simp [removeIdx, hx]
+      rw [h1]
+      have := ih hn.2 hi'
+      simp only [List.length_cons]
+      omega
+
+/-- configuration and flags that neither `jobDone` nor `loop` touch -/
+structure Same (s s' : St) : Prop where
+  e2ee : s'.e2ee = s.e2ee
+  fix : s'.fixEmpty = s.fixEmpty
+  answered : s'.answered = s.answered
+  started : s'.started = s.started
+  page : s'.page = s.page
+
+theorem Same.rfl' (s : St) : Same s s := ⟨rfl, rfl, rfl, rfl, rfl⟩
+
+theorem Same.trans {a b c : St} (h1 : Same a b) (h2 : Same b c) : Same a c :=
+  ⟨h2.e2ee.trans h1.e2ee, h2.fix.trans h1.fix, h2.answered.trans h1.answered,
+   h2.started.trans h1.started, h2.page.trans h1.page⟩
+
+/-- the `for` loop: indices of deferred jobs are appended to `waiting`; the promise is finished
+(once) exactly when the page was not empty and nothing is left waiting -/
+theorem loop_spec (l : List Bool) : ∀ (s : St) (i : Nat),
+    s.jobs = l.length + s.waiting.length → s.active = true →
+    (loop s l i).1.jobs = (loop s l i).1.waiting.length ∧
+    (∃ extra, (loop s l i).1.waiting = s.waiting ++ extra ∧ (∀ w ∈ extra, i ≤ w) ∧ extra.Nodup) ∧
+    Same s (loop s l i).1 ∧
+    (((loop s l i).1.waiting = [] ∧ l ≠ []) → finishes (loop s l i).2 = 1 ∧ (loop s l i).1.active = false) ∧
+    (((loop s l i).1.waiting ≠ [] ∨ l = []) → finishes (loop s l i).2 = 0 ∧ (loop s l i).1.active = true) := by
+  induction l with
+  | nil =>
+    intro s i hj ha
+    simp only [loop]
+    refine ⟨by simpa using hj, ⟨[], by simp⟩, Same.rfl' s, ?_, ?_⟩
+    · intro h; exact absurd rfl h.2
+    · intro _; exact ⟨rfl, ha⟩
+  | cons enc rest ih =>
+    intro s i hj ha
+    simp only [loop]
+    split
+    · -- deferred decryption
+      have hj' : ({ s with waiting := s.waiting ++ [i] } : St).jobs = rest.length + (s.waiting ++ [i]).length := by
+        simp only [List.length_append, List.length_cons, List.length_nil] at hj ⊢; omega
+      obtain ⟨h1, ⟨extra, h2, h3, h4⟩, h5, h6, h7⟩ := ih { s with waiting := s.waiting ++ [i] } (i + 1) hj' ha
+      have hne : (loop { s with waiting := s.waiting ++ [i] } rest (i + 1)).1.waiting ≠ [] := by
+        rw [h2]; simp
+      refine ⟨h1, ⟨i :: extra, by rw [h2]; simp, ?_, ?_⟩, ⟨h5.e2ee, h5.fix, h5.answered, h5.started, h5.page⟩, ?_, ?_⟩
+      · intro w hw
+        rcases List.mem_cons.mp hw with h | h
+        · omega
+        · have := h3 w h; omega
+      · rw [List.nodup_cons]
+        refine ⟨?_, h4⟩
+        intro hi
+        have := h3 i hi
+        omega
+      · intro h; exact absurd h.1 hne
+      · intro _; exact h7 (Or.inl hne)
+    · -- plain message, or decryption that reports at once
+      unfold jobDone
+      simp only
+      split
+      · -- this was the last job
+        rename_i hz
+        have hz' : s.jobs - 1 = 0 := hz
+        have hrest : rest = [] := by
+          simp only [List.length_cons] at hj
+          cases rest with
+          | nil => rfl
+          | cons _ _ => simp only [List.length_cons] at hj; omega
+        have hw : s.waiting = [] := by
+          simp only [List.length_cons] at hj
+          cases hw : s.waiting with
+          | nil => rfl
+          | cons _ _ => rw [hw] at hj; simp only [List.length_cons] at hj; omega
+        subst hrest
+        simp only [loop, List.append_nil]
+        refine ⟨by simp [hw, hz'], ⟨[], by simp⟩, ⟨rfl, rfl, rfl, rfl, rfl⟩, ?_, ?_⟩
+        · intro _; constructor <;> first | rfl | trivial
+        · intro h
+          rcases h with h | h
+          · exact absurd hw h
+          · cases h
+      · rename_i hz
+        have hz' : s.jobs - 1 ≠ 0 := hz
+        have hj' : ({ s with jobs := s.jobs - 1 } : St).jobs = rest.length + s.waiting.length := by
+          simp only [List.length_cons] at hj
+          show s.jobs - 1 = _
+          omega
+        obtain ⟨h1, ⟨extra, h2, h3, h4⟩, h5, h6, h7⟩ := ih { s with jobs := s.jobs - 1 } (i + 1) hj' ha
+        simp only [List.nil_append]
+        refine ⟨h1, ⟨extra, h2, ?_, h4⟩, ⟨h5.e2ee, h5.fix, h5.answered, h5.started, h5.page⟩, ?_, ?_⟩
+        · intro w hw; have := h3 w hw; omega
+        · intro h
+          apply h6
+          refine ⟨h.1, ?_⟩
+          intro hr
+          subst hr
+          rw [h2] at h
+          have : s.waiting = [] := by
+            have := h.1
+            simp only [List.append_eq_nil_iff] at this
+            exact this.1
+          rw [this] at hj'
+          simp only [List.length_nil] at hj'
+          exact hz' hj'
+        · intro h
+          apply h7
+          rcases h with h | h
+          · exact Or.inl h
+          · cases h
+
+/-- invariant of the retrieval machine; `n` = number of times the promise has been finished -/
+structure MInv (E F : Bool) (s : St) (n : Nat) : Prop where
+  he : s.e2ee = E
+  hf : s.fixEmpty = F
+  jobs_eq : s.jobs = s.waiting.length
+  nodup : s.waiting.Nodup
+  act : s.active = true → s.started = true
+  ans : s.answered = true → s.started = true
+  fresh : s.answered = false → s.waiting = [] ∧ n = 0
+  state : s.answered = true →
+    (s.waiting ≠ [] ∧ n = 0 ∧ s.active = true) ∨
+    (s.waiting = [] ∧ n = 1 ∧ s.active = false) ∨
+    (s.waiting = [] ∧ n = 0 ∧ s.active = true ∧ E = true ∧ F = false ∧ s.page = 0)
+
+theorem MInv.init (e i f : Bool) : MInv e f (Mam.init e i f) 0 := by
+  refine ⟨rfl, rfl, rfl, by simp [Mam.init], ?_, ?_, ?_, ?_⟩ <;> simp [Mam.init]
+
+theorem step_minv {E F : Bool} (s : St) (n : Nat) (op : Op) (h : MInv E F s n) :
+    MInv E F (step s op).1 (n + finishes (step s op).2) := by
+  cases op with
+  | start =>
+    simp only [step]
+    split
+    · simpa using h
+    · rename_i hs
+      have hs' : s.started = false := by simpa using hs
+      have hna : s.answered = false := by
+        cases ha : s.answered with
+        | false => rfl
+        | true => have := h.ans ha; rw [hs'] at this; cases this
+      refine ⟨h.he, h.hf, h.jobs_eq, h.nodup, by simp, by simp, ?_, ?_⟩
+      · intro _; simpa using h.fresh hna
+      · intro ha; simp only at ha; rw [hna] at ha; cases ha
+  | collect mine enc =>
+    simp only [step]
+    split
+    · exact ⟨h.he, h.hf, h.jobs_eq, h.nodup, h.act, h.ans, by simpa using h.fresh, by simpa using h.state⟩
+    · have : finishes [Ev.signalled] = 0 := rfl
+      rw [this]; simpa using h
+  | iqError =>
+    simp only [step]
+    split
+    · simpa using h
+    · rename_i hc
+      have hc' : s.active = true ∧ s.answered = false := by simpa [not_or] using hc
+      have hfr := h.fresh hc'.2
+      have : finishes [Ev.finishedErr] = 1 := rfl
+      rw [this]
+      refine ⟨h.he, h.hf, h.jobs_eq, h.nodup, by simp, fun _ => h.act hc'.1, by simp, ?_⟩
+      intro _
+      right; left
+      exact ⟨hfr.1, by omega, rfl⟩
+  | iqResult =>
+    simp only [step]
+    split
+    · simpa using h
+    · rename_i hc
+      have hc' : s.active = true ∧ s.answered = false := by simpa [not_or] using hc
+      have hfr := h.fresh hc'.2
+      have hst := h.act hc'.1
+      split
+      · rename_i he
+        split
+        · -- fixed: empty page finishes at once
+          have : finishes [Ev.finishedOk 0] = 1 := rfl
+          rw [this]
+          refine ⟨h.he, h.hf, h.jobs_eq, h.nodup, by simp, fun _ => hst, by simp, ?_⟩
+          intro _; right; left; exact ⟨hfr.1, by omega, rfl⟩
+        · rename_i hfix
+          -- the loop
+          have hj : ({ s with answered := true, jobs := s.msgs.length, page := s.msgs.length } : St).jobs
+              = s.msgs.length + ({ s with answered := true, jobs := s.msgs.length, page := s.msgs.length } : St).waiting.length := by
+            simp [hfr.1]
+          obtain ⟨h1, ⟨extra, h2, _, h4⟩, h5, h6, h7⟩ :=
+            loop_spec s.msgs { s with answered := true, jobs := s.msgs.length, page := s.msgs.length } 0 hj hc'.1
+          have h2' := h2.trans (show s.waiting ++ extra = extra by rw [hfr.1]; rfl)
+          have hE : E = true := by rw [← h.he]; simpa using he
+          refine ⟨h5.e2ee.trans h.he, h5.fix.trans h.hf, h1, by rw [h2']; exact h4, ?_, ?_, ?_, ?_⟩
+          · intro _; rw [h5.started]; exact hst
+          · intro _; rw [h5.started]; exact hst
+          · intro ha; rw [h5.answered] at ha; cases ha
+          · intro _
+            by_cases hw : (loop { s with answered := true, jobs := s.msgs.length, page := s.msgs.length } s.msgs 0).1.waiting = []
+            · by_cases hm : s.msgs = []
+              · have := h7 (Or.inr hm)
+                right; right
+                refine ⟨hw, by omega, this.2, hE, ?_, ?_⟩
+                · have hfx : ¬ (s.fixEmpty = true ∧ s.msgs = []) := by simpa using hfix
+                  rw [← h.hf]
+                  cases hff : s.fixEmpty with
+                  | false => rfl
+                  | true => exact absurd ⟨hff, hm⟩ hfx
+                · rw [h5.page]; simp [hm]
+              · have := h6 ⟨hw, hm⟩
+                right; left
+                exact ⟨hw, by omega, this.2⟩
+            · have := h7 (Or.inl hw)
+              left
+              exact ⟨hw, by omega, this.2⟩
+      · have : finishes [Ev.finishedOk s.msgs.length] = 1 := rfl
+        rw [this]
+        refine ⟨h.he, h.hf, h.jobs_eq, h.nodup, by simp, fun _ => hst, by simp, ?_⟩
+        intro _; right; left; exact ⟨hfr.1, by omega, rfl⟩
+  | decrypted i =>
+    simp only [step]
+    split
+    · rename_i hi
+      have hans : s.answered = true := by
+        cases ha : s.answered with
+        | true => rfl
+        | false => have := (h.fresh ha).1; rw [this] at hi; cases hi
+      have hcase : n = 0 ∧ s.active = true := by
+        rcases h.state hans with h1 | h1 | h1
+        · exact ⟨h1.2.1, h1.2.2⟩
+        · rw [h1.1] at hi; cases hi
+        · rw [h1.1] at hi; cases hi
+      have hlen := removeIdx_length h.nodup hi
+      have hnd : (removeIdx s.waiting i).Nodup := List.Nodup.sublist (removeIdx_sublist _ _) h.nodup
+      unfold jobDone
+      simp only
+      split
+      · rename_i hz
+        have hz' : s.jobs - 1 = 0 := hz
+        have hw : removeIdx s.waiting i = [] := by
+          apply List.eq_nil_of_length_eq_zero
+          have := h.jobs_eq
+          omega
+        have : finishes [Ev.finishedOk s.page] = 1 := rfl
+        rw [this]
+        refine ⟨h.he, h.hf, by simp [hw, hz'], by simp [hw], by simp, fun _ => h.ans hans, ?_, ?_⟩
+        · intro ha; simp only at ha; rw [hans] at ha; cases ha
+        · intro _; right; left; exact ⟨hw, by omega, rfl⟩
+      · rename_i hz
+        have hz' : s.jobs - 1 ≠ 0 := hz
+        have hw : removeIdx s.waiting i ≠ [] := by
+          intro hw
+          rw [hw] at hlen
+          have := h.jobs_eq
+          simp only [List.length_nil] at hlen
+          omega
+        refine ⟨h.he, h.hf, ?_, hnd, fun _ => h.ans hans, fun _ => h.ans hans, ?_, ?_⟩
+        · show s.jobs - 1 = (removeIdx s.waiting i).length
+          have := h.jobs_eq
+          omega
+        · intro ha; simp only at ha; rw [hans] at ha; cases ha
+        · intro _; left; exact ⟨hw, by simpa using hcase.1, hcase.2⟩
+    · simpa using h
+
+theorem run_minv {E F : Bool} (ops : List Op) : ∀ (s : St) (n : Nat), MInv E F s n →
+    MInv E F (run s ops).1 (n + finishes (run s ops).2) := by
+  induction ops with
+  | nil => intro s n h; simpa [run] using h
+  | cons op rest ih =>
+    intro s n h
+    simp only [run, finishes_append]
+    have := ih _ _ (step_minv s n op h)
+    simpa [Nat.add_assoc] using this
+
+theorem reachable_minv (e i f : Bool) (ops : List Op) :
+    MInv e f (run (Mam.init e i f) ops).1 (finishes (run (Mam.init e i f) ops).2) := by
+  have := run_minv ops _ _ (MInv.init e i f)
+  simpa using this
+
+end Qx.C07.Mam
